@@ -26,11 +26,10 @@ LEVEL_TEXT = (
     'resolve_ranges calls and the exhaustive column range.')
 LEVEL_NOTE = (
     'Partial: range_values_once holds only under the no-truncation guard (known finding D6, full statement kept '
-    'as a comment with the counter-example range_truncated); blank_not_error is proved for cells that were never '
-    'stored and for empty members of ranges, but cells materialised by build_ranges read as empty text and fail in '
-    'arithmetic (D0301); sheet_default / dollar_irrelevant / name_denotes carry the guard "no $ in the sheet '
-    'name" (D0302); sheet names with a comma are D0303. Trusted: Lean kernel, the hand models of openpyxl regular '
-    'expressions, the correspondence harness; functions and operators are parameters of the evaluation theorems.')
+    'as a comment with the counter-example range_truncated); sheet names with a comma are known finding D0303 '
+    '(rect_shape carries the guard "no comma in the sheet name"). Trusted: Lean kernel, the hand models of '
+    'openpyxl regular expressions, the correspondence harness; functions and operators are parameters of the '
+    'evaluation theorems.')
 DESIGN_REF = '§4 C03'
 
 TRUSTED = [
@@ -45,11 +44,10 @@ TRUSTED = [
     'the harness: its own base-26 column naming, its rendering of formula texts and its parsing of address texts',
 ]
 ASSUMPTIONS = [
-    'sheet names: no "!" (C11 D1102), no leading/trailing blanks; "$" only as known finding D0302, "," only as '
-    'the witness of D0303; sheet names and column letters are spelt in the case of the workbook (case-insensitive '
+    'sheet names: no leading/trailing blanks; "," only as the witness of D0303; sheet names and column letters are spelt in the case of the workbook (case-insensitive '
     'matching is not part of the statement)',
-    'an empty text and BLANK are both accepted as "blank" for =REF (func_xltypes.Blank.is_blank does so); the '
-    'difference shows in =REF+0 (known finding D0301)',
+    'an empty text and BLANK are both accepted as "blank" when values are compared (func_xltypes.Blank.is_blank '
+    'does so); arithmetic on an empty cell must give the number (=REF+0 is 0)',
     'cells hold numbers, texts that are not numerals, booleans or formulas with scalar results; a formula whose '
     'result is an array is only used as a probe',
     'COUNTA probes address at most 200 cells (C14 D1404); workbooks are acyclic',
@@ -60,7 +58,7 @@ ASSUMPTIONS = [
 
 MAX_COL = 18278
 MAX_ROW = 1048576
-LISTED_PRIORITY = ['D0302', 'D0303']     # workbook-level guards; D6 and D0301 are decided per probe
+LISTED_PRIORITY = ['D0303']     # workbook-level guard; D6 is decided per probe
 
 
 # ---------------------------------------------------------------- small independent helpers
@@ -336,7 +334,7 @@ def probe_formula(scn, p):
 # ---------------------------------------------------------------- generators
 
 SHEET_POOL = ['Sheet1', 'Sheet2', 'Data', 'My Sheet', "It's", '2024', 'a b c', "O'Neil's x", 'Sheet 3', 'S_1',
-              'Año', 'T-1', 'x.y', '(b)', 'a^b', 'q"t', 'Sheet10', 'sheet_1']
+              'Año', 'T-1', 'x.y', '(b)', 'a^b', 'q"t', 'Sheet10', 'sheet_1', 'US$', 'A!B', '$', 'x!']
 
 
 def gen_value(rng):
@@ -380,10 +378,11 @@ def gen_scenario(rng, mode=None, via=None, special_sheet=None):
     pool = list(SHEET_POOL)
     rng.shuffle(pool)
     sheets = pool[:nsheets]
-    if special_sheet:
+    if special_sheet and special_sheet not in sheets:
         sheets[rng.randrange(nsheets)] = special_sheet
     if rng.random() < 0.6 and 'Sheet1' not in sheets:
         sheets[0] = 'Sheet1'
+    assert len(set(sheets)) == len(sheets)
     default = sheets[0] if rng.random() < 0.8 else rng.choice(sheets)
     via = via or 'dict'
     mode = mode or rng.choice(['small', 'small', 'small', 'wide', 'long', 'block', 'long2'])
@@ -582,20 +581,36 @@ def fixed_scenarios():
     out.append(('D8-sheets', {'default': S1, 'via': 'dict', 'names': [], 'cells': cs,
                 'probes': [{'sheet': 'Sheet2', 'col': 2, 'row': 1}, {'sheet': 'Sheet2', 'col': 2, 'row': 2},
                            {'sheet': S1, 'col': 3, 'row': 1}], 'shape': 'D8'}))
-    # D0301: an empty cell inside a referenced range, used in arithmetic
+    # D0301 (fixed in b6c2c71): an empty cell inside a referenced range, used in arithmetic
     cs = [_c(S1, 1, 1, 1), _c(S1, 1, 3, 5), _c(S1, 16, 1, _f(['u', 0, ['r', 'A1:A3', 'r', None, 1, 1, 1, 3]])),
           _c(S1, 16, 2, _f(['b', 0, ['r', 'A2', 'c', None, 1, 2, 1, 2], ['n', 0]])),
           _c(S1, 16, 3, _f(['r', 'A2', 'c', None, 1, 2, 1, 2])),
           _c(S1, 16, 4, _f(['b', 0, ['r', 'Z9', 'c', None, 26, 9, 26, 9], ['n', 0]]))]
-    out.append(('D0301-witness', {'default': S1, 'via': 'dict', 'names': [], 'cells': cs,
+    out.append(('D0301-fixed', {'default': S1, 'via': 'dict', 'names': [], 'cells': cs,
                 'probes': [{'sheet': S1, 'col': 16, 'row': k} for k in (1, 2, 3, 4)], 'shape': 'D0301'}))
-    # D0302: "$" in a sheet name
+    # D0302 (fixed in 81c9f37): "$" in a sheet name
     cs = [_c('US$', 1, 1, 3), _c('US$', 1, 2, 4), _c(S1, 16, 1, _f(['r', "'US$'!A1", 'c', 'US$', 1, 1, 1, 1])),
           _c(S1, 16, 2, _f(['u', 0, ['r', "'US$'!A1:A2", 'r', 'US$', 1, 1, 1, 2]])),
           _c('US$', 16, 3, _f(['r', 'A$2', 'c', None, 1, 2, 1, 2]))]
-    out.append(('D0302-witness', {'default': S1, 'via': 'dict', 'names': [], 'cells': cs,
+    out.append(('D0302-fixed', {'default': S1, 'via': 'dict', 'names': [], 'cells': cs,
                 'probes': [{'sheet': S1, 'col': 16, 'row': 1}, {'sheet': S1, 'col': 16, 'row': 2},
                            {'sheet': 'US$', 'col': 16, 'row': 3}], 'shape': 'D0302'}))
+    # D1102 (fixed in db75663): "!" in a sheet name, dict and xlsx
+    for via in ('dict', 'xlsx'):
+        nm = [{'name': 'n_ab', 'text': "'A!B'!$A$2", 'kind': 'c', 'sheet': 'A!B', 'c1': 1, 'r1': 2, 'c2': 1, 'r2': 2},
+              {'name': 'r_ab', 'text': "'A!B'!$A$1:$A$2", 'kind': 'r', 'sheet': 'A!B', 'c1': 1, 'r1': 1, 'c2': 1, 'r2': 2}]
+        cs = [_c('A!B', 1, 1, 3), _c('A!B', 1, 2, 4), _c(S1, 1, 1, 100),
+              _c(S1, 16, 1, _f(['r', "'A!B'!A1", 'c', 'A!B', 1, 1, 1, 1])),
+              _c(S1, 16, 2, _f(['u', 0, ['r', "'A!B'!$A1:A$2", 'r', 'A!B', 1, 1, 1, 2]])),
+              _c('A!B', 16, 3, _f(['b', 0, ['r', 'A$2', 'c', None, 1, 2, 1, 2], ['r', 'Sheet1!A1', 'c', S1, 1, 1, 1, 1]])),
+              _c('A!B', 16, 4, _f(['u', 0, ['r', 'A1:A2', 'r', None, 1, 1, 1, 2]])),
+              _c(S1, 16, 5, _f(['b', 0, ['r', 'n_ab', 'n', 'n_ab', 0, 0, 0, 0], ['u', 0, ['r', 'r_ab', 'n', 'r_ab', 0, 0, 0, 0]]])),
+              _c(S1, 16, 6, _f(['r', "'A!B'!P3", 'c', 'A!B', 16, 3, 16, 3]))]
+        out.append((f'D1102-fixed-{via}', {'default': S1, 'via': via, 'names': nm, 'cells': cs, 'sheets': [S1, 'A!B'],
+                    'probes': [{'sheet': S1, 'col': 16, 'row': 1}, {'sheet': S1, 'col': 16, 'row': 2},
+                               {'sheet': 'A!B', 'col': 16, 'row': 3}, {'sheet': 'A!B', 'col': 16, 'row': 4},
+                               {'sheet': S1, 'col': 16, 'row': 5}, {'sheet': S1, 'col': 16, 'row': 6}],
+                    'shape': f'D1102/{via}'}))
     # D0303: "," in a sheet name (range references only; the text before the comma is read as a cell)
     cs = [_c('P2,x', 1, 1, 3), _c('P2,x', 1, 2, 4), _c(S1, 16, 3, _f(['r', "'P2,x'!A1", 'c', 'P2,x', 1, 1, 1, 1])),
           _c(S1, 16, 4, _f(['u', 0, ['r', "'P2,x'!A1:A2", 'r', 'P2,x', 1, 1, 1, 2]]))]
@@ -633,7 +648,6 @@ class EvRunner:
         impls = d['impl'].split('|')
         specs = d['spec'].split('|')
         trunc = d.get('trunc', '').split('|')
-        d0301 = d.get('d0301', '').split('|')
         flags = [x for x in d.get('kf', '').split(',') if x]
         out = []
         for i, (r, m, s) in enumerate(zip(reals, impls, specs)):
@@ -644,8 +658,6 @@ class EvRunner:
             region = []
             if i < len(trunc) and trunc[i] == '1':
                 region.append('D6')
-            if i < len(d0301) and d0301[i] == '1':
-                region.append('D0301')
             region += [f for f in LISTED_PRIORITY if f in flags]
             region = [f for f in region if f in self.listed]
             if region and nr == nm:
@@ -835,13 +847,13 @@ def run_direct(ctx, res):
     thorough = ctx.tier == 'thorough' or ctx.widen
     # --- resolve_ranges: structured targets, every spelling
     targets = []
-    for sheet in [None, 'Sheet2', 'My Sheet', 'Data', '2024', 'a^b']:
+    for sheet in [None, 'Sheet2', 'My Sheet', 'Data', '2024', 'a^b', 'US$', 'A!B', "It's"]:
         targets.append((sheet, 1, 1, 1, 1, True))
         targets.append((sheet, 1, 1, 2, 2, False))
         targets.append((sheet, 26, 9, 28, 11, False))
     nrand = 600 if thorough else 60
     for _ in range(nrand):
-        sheet = rng.choice([None, None, 'Sheet2', 'My Sheet', 'Año', 'T-1', 'S_1'])
+        sheet = rng.choice([None, None, 'Sheet2', 'My Sheet', 'Año', 'T-1', 'S_1', 'US$', 'A!B', 'x!'])
         c1 = rng.choice([1, 2, 25, 26, 27, 52, 53, 701, 702, 703, 704, 18200, rng.randint(1, MAX_COL - 40)])
         r1 = rng.choice([1, 9, 10, 99, 100, 999, 1000, rng.randint(1, MAX_ROW - 400), MAX_ROW - 3])
         w = rng.choice([1, 1, 2, 3, rng.randint(1, 30)])
@@ -949,11 +961,11 @@ def run_direct(ctx, res):
             res.drift.append({'resolve_ranges': text, 'default': default, 'real': real if real != 'ok' else [sheet, len(m)],
                               'impl_model': {k: d.get(k, '')[:120] for k in ('impl', 'sheet', 'n', 'c')}})
     # --- resolve_sheet / resolve_address / the tokenizer's quote state: model validation
-    sheets = ["'My Sheet'", 'My Sheet', "It's", "'It''s'", "''", '', ' x ', 'a^b', "'a", "a'", "'a'b'", "'a'''", "'''", "''''",
+    sheets = ["'A!B'", 'A!B', "'a!''b'", 'US$', "'US$'", "'My Sheet'", 'My Sheet', "It's", "'It''s'", "''", '', ' x ', 'a^b', "'a", "a'", "'a'b'", "'a'''", "'''", "''''",
               'Sheet1', "'Sheet1'", '2024', "'a''b''c'", "'a'''b'", '\tS\n', "' x '", "'é'", 'ü b']
-    addrs = ['My Sheet!$A$1', 'S!aB12', 'S!A1:B2', 'A1', 'S!A', 'S!1', 'S!$A1', 'S!A$1', 'S!ABCD1', "'My Sheet'!B2", 'a!b!C1',
+    addrs = ['A!B!$A$1', 'US$!$A$1', "'A!B'!C3", 'x!!A1', 'My Sheet!$A$1', 'S!aB12', 'S!A1:B2', 'A1', 'S!A', 'S!1', 'S!$A1', 'S!A$1', 'S!ABCD1', "'My Sheet'!B2", 'a!b!C1',
              'S!A1$', 'S!$$A1', 'S!A01', "It's!ZZ100"]
-    raws = ["'My Sheet'!A1", "'It''s'!$A$1", 'Sheet2!A1:B2', "'a''b''c'!A1:B2", 'A1', "'2024'!A1", "'x'!$B$2:$C$3", "'q\"t'!A1",
+    raws = ["'A!B'!$A$1", "'US$'!A1:B2", "'My Sheet'!A1", "'It''s'!$A$1", 'Sheet2!A1:B2', "'a''b''c'!A1:B2", 'A1', "'2024'!A1", "'x'!$B$2:$C$3", "'q\"t'!A1",
             "'a^b'!A1"]
     lines = ['C03\tRS\t' + T(s) for s in sheets] + ['C03\tRA\t' + T(a) for a in addrs] + ['C03\tTOK\t' + T(x) for x in raws]
     resp = ctx.driver.batch(lines)
@@ -998,7 +1010,7 @@ def gen_batch(rng, n, thorough):
     batch = []
     for _ in range(n):
         via = 'xlsx' if rng.random() < (0.08 if thorough else 0.15) else 'dict'
-        special = 'US$' if rng.random() < 0.04 else None
+        special = rng.choice(['US$', 'A!B']) if rng.random() < 0.06 else None
         scn = gen_scenario(rng, via=via, special_sheet=special)
         batch.append((scn['shape'], scn))
     return batch
